@@ -43,6 +43,7 @@ REPCOR = {c: TIE("RepCorollaries", *[n for n in ("gen_C10_total", "gen_C10_looku
 TIE_VIEWS = TIE("GzViews", "tie_obtain_vertices", "tie_accessor_to_latter_map", "tie_remove_useless",
                 "tie_latter_map_to_accessor_plain", "tie_latter_map_to_accessor_trim", "tie_obtain_leaf_vertices_acc",
                 "tie_obtain_leaf_vertices_map", "tie_obtain_leaf_vertices_bad")
+TIE_BUILD = TIE("SwFind", "tie_find_vertices") + TIE("SwValid", "tie_connect_valid_graph", "tie_connect_valid_graph_none")
 TIE_REP = TIE("SwRepair", "tie_repair_dna") + TIE("GzPath", "tie_path_matching")
 TIE_GZ = TIE("GzArith", "tie_obtain_latters", "tie_obtain_formers", "tie_get_complete_accessor")
 TIE_OPERATION = (TIE("OpAdd", "tie_calculus_addition") + TIE("OpSub", "tie_calculus_subtraction") +
@@ -89,7 +90,7 @@ PROPS = {
     "C10": dict(level="proof", theorems=T("C10", "C10_total", "C10_scan_terminates", "C10_lookups") + TIE_REP + REPCOR["C10"], tie=[("spiderweb", ["repair_dna"]), ("graphized", ["path_matching"])], gens=["C10", "GENSW"],
                 rule="ACGT strings >= one window (bad first symbol, error in last window, random, heavily edited) x "
                      "graphs x options under a look-up budget; non-trivial = at least one detection"),
-    "C11": dict(level="proof", theorems=T("C11", "C11_mask", "C11_valid_graph"), gens=["C11"],
+    "C11": dict(level="proof", theorems=T("C11", "C11_mask", "C11_valid_graph") + TIE_BUILD, tie=[("spiderweb", ["find_vertices", "connect_valid_graph"]), ("graphized", ["obtain_latters"]), ("operation", ["number_to_dna"])], gens=["C11", "GENSW"],
                 rule="filters (documented-interface table filter, keyword-extended filter, LocalBioFilter, empty) x "
                      "k, and masks x dtype for the valid graph; non-trivial = mask neither empty nor full"),
     "C12": dict(level="proof", theorems=T("C12", "C12_valid_all", "C12_last", "C12_window_conj", "C12_revcomp",
